@@ -135,6 +135,12 @@ def mon_c02(h, obs):
             for c, vs in b.counter.items():
                 for v in vs:
                     listed.setdefault(v[0], []).append(c)
+            # every entry of the delivery set points at a transaction of THIS block with a successful receipt
+            for idx, chains in sorted(listed.items()):
+                if idx >= len(b.txs) or idx >= len(b.rcs) or not b.rcs[idx].ok:
+                    what = "no such transaction in the block" if idx >= len(b.txs) else f"receipt {'FAILED ' + b.rcs[idx].ret if idx < len(b.rcs) else 'missing'}"
+                    hits.append(Hit("C02/delivery-entry-without-accepted-transaction",
+                                    f"the delivery set of block {b.h} lists transaction index {idx} for {chains}: {what} ({len(b.txs)} transactions in the block)", detail=b.raw))
             for i, (tx, rc) in enumerate(zip(b.txs, b.rcs)):
                 if tx.kind != "ibtp" or tx.id is None:
                     continue
